@@ -189,6 +189,21 @@ def builtin_trace(rng: random.Random) -> list[dict]:
                 ev.append({"e": "rel", "kind": f"fresh-object:{name}", "ok": reused[0] == fresh[0] and close(reused[1], fresh[1], 1e-12)})
             v, e = evaluate(sims[0])
             ev.append(e)
+        # the same object on series of another length (and back): equal to what a fresh object returns
+        for n2 in (n // 2, n * 2):
+            real3 = g.standard_normal((n2, D)).cumsum(axis=0) * 0.1 + g.standard_normal((n2, D))
+            sim3 = g.standard_normal((E, n2, D))
+            try:
+                reused = ("ok", float(loss.compute_loss(sim3, real3)))
+            except Exception as e:  # noqa: BLE001
+                reused = (type(e).__name__, 0.0)
+            try:
+                fresh = ("ok", float(mk(cw).compute_loss(sim3, real3)))
+            except Exception as e:  # noqa: BLE001
+                fresh = (type(e).__name__, 0.0)
+            ev.append({"e": "rel", "kind": f"fresh-object-other-length:{name}", "ok": reused[0] == fresh[0] and close(reused[1], fresh[1], 1e-12)})
+        v, e = evaluate(sims[0])
+        ev.append(e)
         # reordering the ensemble members changes nothing
         perm = list(range(E))
         rng.shuffle(perm)
@@ -220,6 +235,36 @@ def builtin_trace(rng: random.Random) -> list[dict]:
             vz, e = evaluate(same)
             ev.append(e)
             ev.append({"e": "rel", "kind": f"zero-at-equality:{name}", "ok": bool(abs(vz) <= 1e-9 * (1 + float(np.linalg.norm(real))))})
+    return ev
+
+
+def filter_trace(rng: random.Random) -> list[dict]:
+    """the coordinate filters shipped with the library, plugged into a loss: data with zeros / negative values included, the arrays
+    handed to compute_loss come back bit-identical (a filter works on its own copy)"""
+    from black_it.loss_functions.msm import MethodOfMomentsLoss
+    from black_it.utils import time_series as ts
+
+    g = np.random.default_rng(rng.randrange(2**31))
+    n, E = rng.choice([24, 40]), rng.choice([1, 2, 3])  # noqa: N806
+    ev = []
+    for fname in ("hp_cycle_lamb1600_filter", "log_and_hp_filter", "diff_log_demean_filter"):
+        f = getattr(ts, fname, None)
+        if f is None:
+            continue
+        sim = np.abs(g.standard_normal((E, n, 2))) + 0.5
+        real = np.abs(g.standard_normal((n, 2))) + 0.5
+        kind = rng.choice(["positive", "zeros", "negative"])
+        if kind != "positive":
+            for _ in range(3):
+                sim[rng.randrange(E), rng.randrange(n), 0] = 0.0 if kind == "zeros" else -1.25
+        a, b = sim.copy(), real.copy()
+        try:
+            with quiet(), np.errstate(all="ignore"):
+                MethodOfMomentsLoss(coordinate_filters=[f, None]).compute_loss(sim, real)
+        except Exception:  # noqa: BLE001
+            pass        # a filter may refuse non-positive data; it may not rewrite it
+        ev.append({"e": "rel", "kind": f"filter-leaves-input-intact:{fname}:{kind}",
+                   "ok": bool(np.array_equal(a, sim, equal_nan=True) and np.array_equal(b, real, equal_nan=True))})
     return ev
 
 
@@ -264,11 +309,13 @@ def run(tier: str) -> int:
         traces.append(builtin_trace(rng))
     for _ in range(4):
         traces.append(badlen_trace(rng))
+    for _ in range(6 if tier == "quick" else 60):
+        traces.append(filter_trace(rng))
     res = tlc.validate_parallel("LossInterfaceTrace", "LossInterfaceTrace.cfg",
                                 [[{k: v for k, v in e.items() if k not in ("name", "wdefault", "reusedok")} for e in t] for t in traces], parts=12)
     chk.add_validation(res)
     chk.evaluations = sum(len(t) for t in traces)
-    chk.extra.update({"table_driven_cases": n_tab, "builtin_sequences": len(traces) - n_tab - 4,
+    chk.extra.update({"table_driven_cases": n_tab, "builtin_sequences": len(traces) - n_tab - 4 - (6 if tier == "quick" else 60),
                       "distinct_nontrivial": len({repr(t)[:400] for t in traces})})
     for t in traces[:1] + traces[n_tab:n_tab + 1] + traces[-1:]:
         chk.sample(t[:6])
